@@ -1,5 +1,7 @@
 import re
 from .config import Config
+
+re_newline = re.compile(r'\r\n|\r|\n')
 from .abbreviation.convert import AbbreviationAttribute, AbbreviationNode
 
 expression_start = '{'
@@ -38,7 +40,10 @@ class OutputStream:
         # use `push_newline()` to maintain proper line/column state
         first = True
 
-        for line in value.splitlines():
+        lines = re_newline.split(value)
+        if not lines[-1]: lines.pop()
+
+        for line in lines:
             if not first: self.push_newline(True)
             first = False
             self.push(line)
